@@ -157,11 +157,11 @@ def history(ctx, drv, scratch):
             ctx.notes.append(f"{case['file']}: outside WF")
 
 
-def order_independence(ctx, n):
+def order_independence(ctx, n, given=None):
     """same cells supplied in another order: same bytes"""
     rng = ctx.rng
     with Scratch() as scratch:
-        for tri, desc in c05.make_triangles(ctx, n, small=rng.random() < 0.5):
+        for tri, desc in (c05.make_triangles(ctx, n, small=rng.random() < 0.5) if given is None else given):
             cells = list(tri.cells)
             if len(cells) < 2:
                 continue
@@ -169,7 +169,7 @@ def order_independence(ctx, n):
             if st != "ok":
                 continue
             ctx.case(digest="perm" + sha(base), nontrivial=True, sample=None)
-            ctx.count("order/triangles")
+            ctx.count("order/triangles" if given is None else "lesson/order-independence")
             for it in range(4):
                 p = list(cells)
                 if it == 0:
@@ -238,14 +238,20 @@ def correspondence(ctx):
         # the layout has two array tags only: any other dtype is refused by the writer (binary_output.py:226-231);
         # version variants are the `rejection` stream below
         c05.refusal_stream(ctx, drv, scratch, 80 if ctx.thorough else 20, versions=False)
+        # the eight generator lessons of seeded batch 4 (shared with C05): a fixed quota in every run
+        groups = c05.lesson_stream(ctx, drv, scratch, compressed=False, heavy=True)
     order_independence(ctx, 300 if ctx.thorough else 40)
+    order_independence(ctx, 0, given=[td for tag, g in groups for td in g
+                                      if td[1].get("cells", 0) <= 1100 and "file>" not in tag and "strings" not in tag])
     rejection(ctx, drv, 40 if ctx.thorough else 6)
 
 
 RULE = ("history: 5 shipped .trib files + pinned corpus of generated files (bytes and cell-by-cell dumps recorded once "
         "from the verified tree); fresh random triangles as in C05 cross-checked in both directions against the "
         "independent codec; random permutations/iterables of the same cells; bad-magic/other-version variants of valid "
-        "files; arrays of a dtype other than int64/float64 (float32, int32, bool, uint8, ...) refused by the writer. distinct = distinct file contents / raw dump; non-trivial = holds a cell or is a rejection variant")
+        "files; arrays of a dtype other than int64/float64 (float32, int32, bool, uint8, ...) refused by the writer; the LESSON groups of C05 "
+        "(key counts at 136/256/392, long strings, big arrays and files, >= 1000 cells, late metadata changes, twins, derived triangles, "
+        "falsy values) through the independent codec, Spec.C06.recordsOnChange and order independence. distinct = distinct file contents / raw dump; non-trivial = holds a cell or is a rejection variant")
 
 if __name__ == "__main__":
     if len(sys.argv) > 1 and sys.argv[1] == "--record":
